@@ -197,7 +197,7 @@ MIS = re.compile(r"^MISMATCH line=(\d+) cmd=\[(.*?)\] expected=\[(.*)\] got=\[(.
 # boolean and is well-formed (Validate-level) — only the literal representation (container kinds, payload layout, sharing flags) is not
 # the one the hand-written L2 model computes.  A harmless rewrite of the code does that too.  Such a line is reported only when the
 # search through everything else the check runs found no input on which the property itself fails, and then with no-failing-input-found.
-CORR_ONLY = re.compile(r"= Go representation; model:|array kernel model \(L2\) = Go array|^plane model: ")
+CORR_ONLY = re.compile(r"= Go representation; model:|array kernel model \(L2\) = Go array|^plane model: |^L2 bucket structure of |^L2 exact \(|^operand \S+ after = |^chg \(the model says")
 
 
 def run_lean(script_path, go_path, timeout=900):
